@@ -83,6 +83,8 @@ where
                     listener_addr.display(),
                     err
                 );
+                // The endpoint's file is still there: whoever unbinds or closes is told
+                return Err(err.into());
             }
         }
         Ok(())
